@@ -133,6 +133,11 @@ func vMtOp(t []string) string {
 		return "ok"
 	case "rules":
 		vMt[s] = vMt[vNat(t, 3)].ApplyRules(vRenames[vNat(t, 4)])
+	case "fill":
+		for i := 0; i < vNat(t, 4); i++ {
+			vMt[s].AddRaw(nil, t[3]+strconv.Itoa(i), "", [6]float64{1, 1, 1, 1, 1, 1}, Unforced)
+		}
+		return fmt.Sprintf("count=%d dropped=%d", vMt[s].count, vMt[s].numDropped)
 	case "setfailed":
 		vMt[s].failedHarvests = vNat(t, 3)
 	default:
